@@ -89,6 +89,7 @@ def mutants(props, seeds=False):
             if ap.returncode != 0:
                 rows.append((name, "PATCH-DOES-NOT-APPLY"))
                 wrong += 1
+                print("mutant %-55s %s" % rows[-1])
                 continue
             env = dict(os.environ, AMOSIM_REPO=scratch, AMOSIM_EVIDENCE_DIR=os.path.join(out, "ev"), AMOSIM_REPLAY_DIR=os.path.join(out, "rp"))
             r = subprocess.run([os.path.join(VERIF, "check"), prop, "--tier", "quick"], env=env, capture_output=True, text=True)
